@@ -8,6 +8,7 @@ From Verif Require Import Interp.RunAtpsrv Interp.RunAtpxp.
 From Verif Require Import Interp.RunC04 Interp.RunC12.
 From Verif Require Import Interp.RunC17.
 From Verif Require Import Interp.RunDescribe.
+From Verif Require Import Interp.RunXSchema.
 Open Scope string_scope.
 
 Definition run_case (x : sexp) : sexp :=
@@ -33,6 +34,7 @@ Definition run_case (x : sexp) : sexp :=
         else if String.eqb fam "c17" then run_c17_case payload
         else if String.eqb fam "c09describe" then run_describe_case payload
         else if String.eqb fam "c10mutants" then run_mutant_case payload
+        else if String.eqb fam "structobj" then run_xschema_case payload
         else bad "unknown family" in
       Ls [At "obs"; id; r]
   | _ => bad "not a case"
